@@ -368,6 +368,57 @@ end Sentinel.Iso
 
 namespace Sentinel.Iso
 
+/-! ### ghosts: an entry that stays in flight under a fresh id -/
+
+theorem foldl_max_ge (l : List (Nat × String)) (a : Nat) :
+    a ≤ l.foldl (fun m p => max m (p.1 + 1)) a ∧ ∀ p ∈ l, p.1 < l.foldl (fun m p => max m (p.1 + 1)) a := by
+  induction l generalizing a with
+  | nil => exact ⟨le_refl _, by simp⟩
+  | cons q r ih =>
+    simp only [List.foldl_cons]
+    obtain ⟨h1, h2⟩ := ih (max a (q.1 + 1))
+    refine ⟨le_trans (le_max_left _ _) h1, ?_⟩
+    intro p hp
+    rcases List.mem_cons.mp hp with rfl | hp
+    · exact lt_of_lt_of_le (by omega) (le_trans (le_max_right a _) h1)
+    · exact h2 p hp
+
+theorem freshId_gt (live : List (Nat × String)) : ∀ p ∈ live, p.1 < freshId live := (foldl_max_ge live _).2
+
+theorem inflight_ghost (live : List (Nat × String)) (id : Nat) (x : String) :
+    inflight (ghostLive live id) x = inflight live x := by
+  unfold inflight ghostLive
+  rw [List.countP_map]
+  congr 1
+  funext p
+  simp only [Function.comp]
+  split <;> rfl
+
+theorem nodup_ghost (live : List (Nat × String)) (id : Nat) (hn : (live.map (·.1)).Nodup) :
+    ((ghostLive live id).map (·.1)).Nodup := by
+  have hm : (ghostLive live id).map (·.1) = (live.map (·.1)).map fun i => if i = id then freshId live else i := by
+    unfold ghostLive
+    rw [List.map_map, List.map_map]
+    apply List.map_congr_left
+    intro p _
+    simp only [Function.comp]
+    split <;> rfl
+  rw [hm]
+  apply List.Nodup.map_on _ hn
+  intro a ha b hb hab
+  have ha' : a < freshId live := by
+    obtain ⟨p, hp, rfl⟩ := List.mem_map.mp ha; exact freshId_gt live p hp
+  have hb' : b < freshId live := by
+    obtain ⟨p, hp, rfl⟩ := List.mem_map.mp hb; exact freshId_gt live p hp
+  by_cases h1 : a = id <;> by_cases h2 : b = id
+  · rw [h1, h2]
+  · simp only [h1, h2, if_true, if_false] at hab; omega
+  · simp only [h1, h2, if_true, if_false] at hab; omega
+  · simpa [h1, h2] using hab
+
+theorem length_ghost (live : List (Nat × String)) (id : Nat) : (ghostLive live id).length = live.length := by
+  simp [ghostLive]
+
 /-! ### the sequential machine: gauge version = history-recomputing reference -/
 
 structure R (m : St) (s : SpecSt) : Prop where
@@ -396,6 +447,11 @@ theorem step_refines (m : St) (s : SpecSt) (op : Op) (h : R m s) (hb : s.live.le
     exact ⟨rfl, ⟨by simp only [step, specStep, hr], hl, hg, hn⟩, by simp [specStep, opSize]⟩
   | poke res idx thr =>
     exact ⟨rfl, ⟨by simp only [step, specStep, hr], hl, hg, hn⟩, by simp [specStep, opSize]⟩
+  | ghost id =>
+    refine ⟨rfl, ⟨hr, by simp only [step, specStep, hl], ?_, nodup_ghost _ _ hn⟩, by simp [specStep, opSize, length_ghost]⟩
+    intro x
+    simp only [step, specStep]
+    rw [inflight_ghost]; exact hg x
   | getrules res =>
     exact ⟨by simp only [step, specStep, hr], ⟨hr, hl, hg, hn⟩, by simp [specStep, opSize]⟩
   | getall =>
@@ -551,6 +607,7 @@ theorem specStep_cap (z : Nat) (s : SpecSt) (o : Op) (hs : seqOp o = true)
   | loadres a b c => cases hs
   | poke a b c => cases hs
   | getrules a => cases hs
+  | ghost a => cases hs
   | getall => cases hs
   | sched a b c d => cases hs
   | soak a b c d => cases hs
@@ -773,6 +830,7 @@ theorem specStep_ideal (s : SpecSt) (o : Op) (hs : s.rules = s.ideal) :
   | loadres sc res ths => simp only [specStep, hs]
   | poke res idx thr => simp only [specStep, hs]
   | getrules res => exact hs
+  | ghost id => exact hs
   | getall => exact hs
   | conc res => exact hs
   | soak a b c d => exact hs
